@@ -321,7 +321,7 @@ NSHARD = 16
 
 
 def plan(tier):
-    n = 150 if tier == 'quick' else 1500
+    n = 400 if tier == 'quick' else 1500
     return [{'kind': 'hyp', 'shard': i, 'examples': n} for i in range(NSHARD)]
 
 
